@@ -58,6 +58,8 @@ def run(ctx):
         ctx.run_rule("R5-write-intent", r5_intent, F)
         from rules import c11
         ctx.run_rule("R6-copy-up-fidelity", c11.r3_copy_up, F)
+        ctx.run_rule("R6-live-tree", c11.r6_live_tree, F)            # the visible tree follows each operation
+        ctx.run_rule("R7-preconditions", c11.r7_preconditions, F)    # each modifying step runs exactly when its precondition holds
     finally:
         vf.NOUPD[0] = False
         vf.NOCAST[0] = False
@@ -318,6 +320,25 @@ def r2_roots(ctx, F):
         ctx.fn_seen(b)
         ok = ok and b.can_reach(uc.bb, lc.bb) and not b.can_reach(lc.bb, uc.bb)
     ctx.check(rule, "import", ok, "OverlayFs::import must flag exactly the configured upper layer as upper, push it first, and flag every lower layer as lower")
+    # each root backing inode: the layer's own root, not a whiteout, opaque as the layer says; recorded in the root node; the root
+    # node is registered under ROOT_ID and its directory is loaded
+    if len(imp) == 2:
+        b = F.method(OFS, "import")
+        v = vf.VF(b, inline_depth=0, opaque_loops=True)
+        for (a, g, c) in imp:
+            lay = a[0]
+            okf = len(a) == 5 and a[3] == "0" and a[2].startswith("Layer::root_inode(") and lay in a[2] and a[4].startswith("Layer::is_opaque(") and lay in a[4] and a[4].endswith("?")
+            ctx.check(rule, "import/root-inode-of-%s" % ("upper" if a[1] == "1" else "lower"), okf,
+                      "OverlayFs::import builds a root backing inode as RealInode::new(%s): required (layer, upper?, layer.root_inode(), whiteout = false, layer.is_opaque(root)?)" % ", ".join(x[:50] for x in a), loc=c.loc())
+        ps = [c for c in live_calls(b) if c.name == "push" and "Vec" in (c.fn or "")]
+        pa = [R(v.call_args(c)[1], b, v) for c in ps]
+        ctx.check(rule, "import/roots-recorded", len(ps) == 2 and all(x.startswith("RealInode::new(") for x in pa) and len(set(pa)) == 2,
+                  "OverlayFs::import must push both kinds of root backing inodes onto the root node's list (pushes: %s)" % [x[:60] for x in pa], loc=b.loc())
+        ii = [c for c in live_calls(b) if c.name == "insert_inode"]
+        ld = [c for c in live_calls(b) if c.name == "load_directory"]
+        ok2 = len(ii) == 1 and len(ld) == 1 and R(v.call_args(ii[0])[1], b, v) == "ROOT_ID" and b.dominates(ii[0].bb, ld[0].bb) and \
+            not [1 for (x, l, u) in v.guards(ld[0].bb) if not R(x, b, v).startswith("discr(")]
+        ctx.check(rule, "import/registered-and-loaded", ok2, "OverlayFs::import must register the root node under ROOT_ID and then load its directory, unconditionally", loc=b.loc())
     # handle_upper_inode_locked
     b = F.method(OIN, "handle_upper_inode_locked")
     ctx.fn_seen(b)
@@ -534,6 +555,18 @@ def r4_union(ctx, F):
         gi = [(R(x, b, v), l) for (x, l, u) in v.guards(ins[0].bb)]
         ok = any(t.startswith("discr(HashMap::get_mut(") and l == 1 for (t, l) in gp) and any(t.startswith("discr(HashMap::get_mut(") and l == 0 for (t, l) in gi)
     ctx.check(rule, "scan/merge-appends", ok, "scan_childrens: an entry seen in a lower layer must be appended after the upper ones (Vec::push on the existing list, insert otherwise)", loc=b.loc())
+    # every merged name becomes a child: the second loop builds a node from each (name, backing inodes) pair and keeps it
+    nf = [c for c in live_calls(b) if c.name == "new_from_real_inodes"]
+    kp = [c for c in live_calls(b) if c.name == "push" and c not in ps and nf and b.dominates(nf[0].bb, c.bb)]
+    ok = len(nf) == 1 and len(kp) == 1
+    if ok:
+        a_ = [R(x, b, v) for x in v.call_args(kp[0])]
+        g_ = [(R(x, b, v), l) for (x, l, u) in v.guards(kp[0].bb)]
+        g0_ = [(R(x, b, v), l) for (x, l, u) in v.guards(nf[0].bb)]
+        ok = "OverlayInode::new_from_real_inodes(" in a_[1] and a_[1].endswith("?") and not [1 for (t, l) in g_ if (t, l) not in g0_ and not t.startswith("discr(")]
+        rr = R(v.ret(), b, v)
+        ok = ok and "Ok(" in rr
+    ctx.check(rule, "scan/every-name-kept", ok, "scan_childrens must build a node for every merged name and return all of them (no filter between new_from_real_inodes and the result)", loc=b.loc())
     # the walk starts from self.real_inodes in stored order
     zs = [c for c in live_calls(b) if c.name == "zip"]
     ok = len(zs) == 1 and "impl [T]::iter(" in R(v.call_args(zs[0])[1], b, v) and "self.real_inodes" in R(v.call_args(zs[0])[1], b, v) and "rev(" not in R(v.call_args(zs[0])[1], b, v)
@@ -571,6 +604,14 @@ def r4_union(ctx, F):
         v = vf.VF(b, inline_depth=0)
         t = R(v.ret(), b, v)
         if want is None:
+            atoms3 = {"overlay::is_chardev(st)", "Eq(0, libc::major(st.st_rdev))", "Eq(0, libc::minor(st.st_rdev))"}
+            tn = t.replace("Eq(libc::major(st.st_rdev), 0)", "Eq(0, libc::major(st.st_rdev))").replace("Eq(libc::minor(st.st_rdev), 0)", "Eq(0, libc::minor(st.st_rdev))")
+            m3 = re.fullmatch(r"phi\{(.+?) && (.+?) => (.+?) \| _ => 0\}", tn)
+            conj = m3 is not None and set(m3.groups()) == atoms3
+            if not conj:
+                parts = [x for x in re.split(r"BitAnd\(|, (?=overlay::|Eq\()|\)$", tn) if x]
+                conj = tn.startswith("BitAnd(") and set(x.rstrip(")") + (")" if not x.rstrip(")").endswith("(st)") and x.count("(") > x.rstrip(")").count(")") else "") for x in parts) == atoms3
+            ctx.check(rule, "recogniser/is_whiteout-conjunction", conj, "is_whiteout must be the conjunction `character device && major == 0 && minor == 0`; it computes `%s`" % t[:200], loc=b.loc())
             ok = "overlay::is_chardev(st)" in t and "Eq(0, libc::major(st.st_rdev))" in t.replace("Eq(libc::major(st.st_rdev), 0)", "Eq(0, libc::major(st.st_rdev))") and \
                 "Eq(0, libc::minor(st.st_rdev))" in t.replace("Eq(libc::minor(st.st_rdev), 0)", "Eq(0, libc::minor(st.st_rdev))")
         else:
